@@ -1,0 +1,221 @@
+//! Verification harness access to the crate-private [`DirectAddrUpdateState`] (property C25).
+//!
+//! The harness plays the socket actor (`schedule_run` for an update request, `try_run` as the
+//! reaction to a run's done signal) and the run tasks: a run that `DirectAddrUpdateState::run`
+//! would spawn is handed to a [`Sim`] instead, which keeps the net-reporter guard until the
+//! harness lets the run finish. The scheduling code (`schedule_run`, `try_run`, `want_update`,
+//! the reporter lock, the early returns of `run`, the done channel) is the real one.
+use std::sync::{Arc, Mutex};
+
+use iroh_relay::{
+    RelayMap,
+    tls::{CaTlsConfig, default_provider},
+};
+use tokio::sync::{Mutex as AsyncMutex, OwnedMutexGuard, mpsc};
+use tokio_util::sync::CancellationToken;
+
+use super::{DirectAddrUpdateState, Socket, UpdateReason};
+use crate::{
+    Endpoint,
+    dns::DnsResolver,
+    net_report::{self, IfStateDetails},
+    portmapper::{self, PortmapperConfig},
+};
+
+/// Why an update is requested (mirror of the crate-private `UpdateReason`, minus `None`).
+#[derive(Debug, Clone, Copy, PartialEq, Eq, Hash, PartialOrd, Ord)]
+pub enum Reason {
+    Periodic,
+    PortmapUpdated,
+    LinkChangeMajor,
+    LinkChangeMinor,
+    RelayMapChange,
+}
+
+impl Reason {
+    pub const ALL: [Reason; 5] = [
+        Reason::Periodic,
+        Reason::PortmapUpdated,
+        Reason::LinkChangeMajor,
+        Reason::LinkChangeMinor,
+        Reason::RelayMapChange,
+    ];
+
+    fn to_update(self) -> UpdateReason {
+        match self {
+            Reason::Periodic => UpdateReason::Periodic,
+            Reason::PortmapUpdated => UpdateReason::PortmapUpdated,
+            Reason::LinkChangeMajor => UpdateReason::LinkChangeMajor,
+            Reason::LinkChangeMinor => UpdateReason::LinkChangeMinor,
+            Reason::RelayMapChange => UpdateReason::RelayMapChange,
+        }
+    }
+
+    fn of(why: UpdateReason) -> Option<Reason> {
+        Some(match why {
+            UpdateReason::None => return None,
+            UpdateReason::Periodic => Reason::Periodic,
+            UpdateReason::PortmapUpdated => Reason::PortmapUpdated,
+            UpdateReason::LinkChangeMajor => Reason::LinkChangeMajor,
+            UpdateReason::LinkChangeMinor => Reason::LinkChangeMinor,
+            UpdateReason::RelayMapChange => Reason::RelayMapChange,
+        })
+    }
+
+    /// `UpdateReason::is_major`: whether the run asks the net reporter for a full report.
+    pub fn is_major(self) -> bool {
+        self.to_update().is_major()
+    }
+}
+
+/// Runs handed over by `DirectAddrUpdateState::run` instead of being spawned.
+#[derive(Debug, Default)]
+pub(super) struct Sim {
+    /// Runs in flight: each holds the net-reporter guard, like the spawned task would.
+    in_flight: Vec<(UpdateReason, OwnedMutexGuard<net_report::Client>)>,
+    /// Every run started so far, in order.
+    started: Vec<UpdateReason>,
+}
+
+impl Sim {
+    pub(super) fn start(
+        &mut self,
+        why: UpdateReason,
+        net_reporter: OwnedMutexGuard<net_report::Client>,
+    ) {
+        self.started.push(why);
+        self.in_flight.push((why, net_reporter));
+    }
+}
+
+/// Builds [`StateHarness`]es reporting into the socket of a bound endpoint.
+#[derive(Debug, Clone)]
+pub struct StateHarnessFactory {
+    sock: Arc<Socket>,
+    relay_map: RelayMap,
+    dns_resolver: DnsResolver,
+    tls_config: rustls::ClientConfig,
+}
+
+impl StateHarnessFactory {
+    /// `relay_map` must not be empty (an empty map makes `run` return before any report).
+    pub fn new(ep: &Endpoint, relay_map: RelayMap) -> Self {
+        StateHarnessFactory {
+            sock: ep.verif_inner().verif_sock(),
+            relay_map,
+            dns_resolver: DnsResolver::new(),
+            tls_config: CaTlsConfig::default()
+                .client_config(default_provider())
+                .expect("tls config"),
+        }
+    }
+
+    /// A fresh `DirectAddrUpdateState` (built like `EndpointInner::bind` builds the actor's one)
+    /// with its own net reporter and done channel.
+    pub fn fresh(&self) -> StateHarness {
+        let client = net_report::Client::new(
+            self.dns_resolver.clone(),
+            self.relay_map.clone(),
+            net_report::Options::new(self.tls_config.clone()),
+            Default::default(),
+        );
+        let net_reporter = Arc::new(AsyncMutex::new(client));
+        let (done_tx, done_rx) = mpsc::channel(8);
+        let mut state = DirectAddrUpdateState::new(
+            self.sock.clone(),
+            portmapper::create_client(&PortmapperConfig::Disabled),
+            net_reporter.clone(),
+            self.relay_map.clone(),
+            done_tx.clone(),
+            CancellationToken::new(),
+        );
+        let sim = Arc::new(Mutex::new(Sim::default()));
+        state.verif_sim = Some(sim.clone());
+        StateHarness {
+            state,
+            sim,
+            net_reporter,
+            done_tx,
+            done_rx,
+        }
+    }
+}
+
+/// A `DirectAddrUpdateState` driven by hand.
+#[derive(Debug)]
+pub struct StateHarness {
+    state: DirectAddrUpdateState,
+    sim: Arc<Mutex<Sim>>,
+    net_reporter: Arc<AsyncMutex<net_report::Client>>,
+    done_tx: mpsc::Sender<()>,
+    done_rx: mpsc::Receiver<()>,
+}
+
+fn if_state() -> IfStateDetails {
+    IfStateDetails {
+        have_v4: true,
+        have_v6: false,
+    }
+}
+
+impl StateHarness {
+    /// The actor handles a trigger: `re_stun(why)` -> `schedule_run(why, ..)`.
+    pub fn request(&mut self, why: Reason) {
+        self.state.schedule_run(why.to_update(), if_state());
+    }
+
+    /// The oldest run in flight releases the net reporter (`drop(net_reporter)` in the run task).
+    /// Returns false if no run is in flight.
+    pub fn release_reporter(&mut self) -> bool {
+        let mut sim = self.sim.lock().expect("poisoned");
+        if sim.in_flight.is_empty() {
+            return false;
+        }
+        let (_why, guard) = sim.in_flight.remove(0);
+        drop(guard);
+        true
+    }
+
+    /// A finished run queues its done signal (`run_done.send(())` in the run task).
+    /// Returns false if the channel is full (the task would wait).
+    pub fn send_done(&mut self) -> bool {
+        self.done_tx.try_send(()).is_ok()
+    }
+
+    /// The actor takes one done signal from the channel and reacts with `try_run`.
+    /// Returns false if no signal is queued.
+    pub fn handle_done(&mut self) -> bool {
+        match self.done_rx.try_recv() {
+            Ok(()) => {
+                self.state.try_run(if_state());
+                true
+            }
+            Err(_) => false,
+        }
+    }
+
+    /// The pending update, if any.
+    pub fn want_update(&self) -> Option<Reason> {
+        self.state.want_update.and_then(Reason::of)
+    }
+
+    /// Whether the net reporter is locked.
+    pub fn reporter_busy(&self) -> bool {
+        self.net_reporter.try_lock().is_err()
+    }
+
+    /// Reasons of the runs in flight (holding the reporter), oldest first.
+    pub fn in_flight(&self) -> Vec<Reason> {
+        let sim = self.sim.lock().expect("poisoned");
+        sim.in_flight
+            .iter()
+            .filter_map(|(w, _)| Reason::of(*w))
+            .collect()
+    }
+
+    /// Reasons of all runs started so far, in order.
+    pub fn started(&self) -> Vec<Reason> {
+        let sim = self.sim.lock().expect("poisoned");
+        sim.started.iter().filter_map(|w| Reason::of(*w)).collect()
+    }
+}
